@@ -201,4 +201,19 @@ PROPS = {
         "trusted": ["catch_unwind observes every panic of the calling thread", "watchdog 4 s + 8 s re-run for hang detection"],
         "shards": 8,
     },
+    "C18": {
+        "level_text": "Kernel-checked: (reopen, non-rotating writer, every buffer capacity) for every history of writes/flushes/external renames/reopen_output the files "
+                      "— moved files in the order they were moved, then the file at the original path — hold exactly the written bytes, grouped on record boundaries; the "
+                      "not-yet-flushed tail lands in the OLD file (reopen_flushes_into_old_file); after an external delete exactly the deleted file and what was written "
+                      "before reopen_output are lost (remove_then_reopen). (reset_flw, all namings before and after) everything logged before a reset remains in the old "
+                      "family incl. the buffered tail, everything after is in the new one (reset_stream, reset_separates). (rotation + rename) every file holds a contiguous "
+                      "run of records, every record is in exactly one file (rotation_rename_files). Differential check on histories mixing writes, rotation, external "
+                      "rename/remove + reopen_output and reset_flw to other families, direct and buffered.",
+        "level_note": "Rotation + external rename is proved in the order-free form (the reading order of moved files is not chronological then) for Numbers/Timestamps. "
+                      "Asynchronous mode is outside the property.",
+        "correspondence": "Flw model (extRename/extRemove/reopen/reset, archived families) vs FileLogWriter::reopen_outputfile/reset on real files renamed/removed by the harness",
+        "rule": "histories with EXTREN/EXTRM+REOPEN and RESET to another discriminant x no rotation / Numbers / Timestamps x caps incl. tails below the capacity; "
+                "non-trivial = rotation happened or a reopen/reset was executed",
+        "trusted": ["OS: an open descriptor follows a renamed file; bytes written to an unlinked file are gone"],
+    },
 }
